@@ -160,6 +160,7 @@ fn run_case(case: &Case, ctx: &mut Ctx) {
     let poller_done = Arc::new(AtomicBool::new(false));
     let fast_path_polls = Arc::new(AtomicUsize::new(0));
     let wakers_done = Arc::new(AtomicUsize::new(0));
+    let wakers_exited = Arc::new(AtomicUsize::new(0));
     let errors: Arc<Mutex<Vec<String>>> = Arc::new(Mutex::new(Vec::new()));
     let nwakers = case.wakers.len().clamp(1, 3);
     let queued_ops: Arc<Mutex<Vec<SendFut>>> = Arc::new(Mutex::new(Vec::new()));
@@ -245,6 +246,7 @@ fn run_case(case: &Case, ctx: &mut Ctx) {
         let starts = wake_starts.clone();
         let n = case.wakers[t].clamp(1, 2);
         let wd = wakers_done.clone();
+        let exited = wakers_exited.clone();
         let errors = errors.clone();
         let ahead = if case.mode != Mode::SingleIssuer && !case.full_queue { case.queued_ahead.get(t).copied().unwrap_or(0).min(2) } else { 0 };
         let queued = queued_ops.clone();
@@ -271,6 +273,11 @@ fn run_case(case: &Case, ctx: &mut Ctx) {
                     catch(|| sq.wake())
                 };
                 if let Err((m, l)) = r {
+                    if m.contains(sched::SPIN_AFTER_ABORT) {
+                        // wake() was still going round long after the run was
+                        // cut short: judged by the over-budget rule below.
+                        break;
+                    }
                     errors.lock().unwrap().push(format!("wake() panicked at {l}: {m}"));
                 }
             }
@@ -278,12 +285,14 @@ fn run_case(case: &Case, ctx: &mut Ctx) {
                 // (Finished on its own, not because the run was cut short.)
                 wd.fetch_add(1, Ordering::SeqCst);
             }
+            exited.fetch_add(1, Ordering::SeqCst);
             drop(sq);
         }));
     }
     if case.mode == Mode::Sqpoll {
         // Kernel thread actor.
         let wd = wakers_done.clone();
+        let exited = wakers_exited.clone();
         let done = poller_done.clone();
         threads.push(Box::new(move || {
             let mut idle_turns = 0;
@@ -297,7 +306,7 @@ fn run_case(case: &Case, ctx: &mut Ctx) {
                 if done.load(Ordering::SeqCst) && wd.load(Ordering::SeqCst) == nwakers {
                     break;
                 }
-                if !active && wd.load(Ordering::SeqCst) == nwakers {
+                if !active && (wd.load(Ordering::SeqCst) == nwakers || exited.load(Ordering::SeqCst) == nwakers) {
                     break;
                 }
                 // Asleep (NEED_WAKEUP set): nothing is consumed until an
